@@ -121,6 +121,10 @@ type cluster struct {
 
 func peerName(idx int) string { return fmt.Sprintf("signer-test%02d", idx+1) }
 
+// peerViews: every instance's peer table gives the OTHER peers under ports of its own (as when instances reach each other
+// through different forwarded ports); names and ids are the same everywhere.
+var peerViews bool
+
 func newCluster(dir string, ids []uint64, timeout time.Duration, overGRPC bool) *cluster {
 	initBLS()
 	c := &cluster{dir: dir, insts: map[uint64]*dkgInst{}, ids: ids, peerMap: map[uint64]string{}}
@@ -169,7 +173,17 @@ func newCluster(dir string, ids []uint64, timeout time.Duration, overGRPC bool) 
 		if err != nil {
 			panic(err)
 		}
-		peersSvc, err := staticpeers.New(ctx, staticpeers.WithPeers(c.peerMap))
+		pm := c.peerMap
+		if peerViews && !overGRPC {
+			pm = map[uint64]string{}
+			for pid, ep := range c.peerMap {
+				pm[pid] = ep
+				if pid != id {
+					pm[pid] = fmt.Sprintf("%s:%d", strings.Split(ep, ":")[0], 20000+1000*int(id)+int(pid))
+				}
+			}
+		}
+		peersSvc, err := staticpeers.New(ctx, staticpeers.WithPeers(pm))
 		if err != nil {
 			panic(err)
 		}
@@ -571,6 +585,7 @@ type acctInfo struct {
 	vvec      [][]byte
 	threshold uint32
 	parts     []uint64
+	partEps   string
 	acct      e2wtypes.Account
 }
 
@@ -594,6 +609,9 @@ func (c *cluster) info(account string) []acctInfo {
 			}
 		}
 		ai.parts = sortedIDs(da.Participants())
+		for _, pid := range ai.parts {
+			ai.partEps += fmt.Sprintf("%d=%s;", pid, da.Participants()[pid])
+		}
 		out = append(out, ai)
 	}
 	return out
@@ -627,7 +645,7 @@ func (c *cluster) relations(account string) string {
 		if !bytes.Equal(ai.composite, first.composite) {
 			return "bad:composite-differs"
 		}
-		if vvecHash(ai.vvec) != vvecHash(first.vvec) || ai.threshold != first.threshold || idsStr(ai.parts) != idsStr(first.parts) {
+		if vvecHash(ai.vvec) != vvecHash(first.vvec) || ai.threshold != first.threshold || idsStr(ai.parts) != idsStr(first.parts) || ai.partEps != first.partEps {
 			return "bad:metadata-differs"
 		}
 		if len(ai.vvec) != int(ai.threshold) {
@@ -881,6 +899,7 @@ func dkgEngine(workdir string) {
 			ms, _ := strconv.Atoi(f[2])
 			d := fmt.Sprintf("%s/c%d", workdir, n)
 			os.MkdirAll(d, 0o755)
+			peerViews = len(f) > 3 && f[3] == "views"
 			c = newCluster(d, parseIDs(f[1]), time.Duration(ms)*time.Millisecond, len(f) > 3 && f[3] == "grpc")
 			res = "ok"
 		case "gen":
